@@ -5,12 +5,14 @@ import (
 	"encoding/json"
 	"fmt"
 	"strings"
+	"time"
 
 	smtp "github.com/emersion/go-smtp"
 
 	"verifharness/core"
 	"verifharness/rec"
 	"verifharness/ref"
+	"verifharness/wire"
 )
 
 // C02 — only CRLF.CRLF ends DATA; commands resume exactly after it.
@@ -24,6 +26,10 @@ type c02Case struct {
 	Mode   srvMode `json:"mode"`
 	Seg    string  `json:"seg"`  // one | line | cuts
 	Cuts   []int   `json:"cuts"` // for Seg == cuts
+	// Stall > 0: ReadTimeout is set and, after Stall octets of the message, more than ReadTimeout
+	// "elapses" (the read deadline the server has armed, if any, is fired); the peer then carries
+	// on sending the rest of the message and the commands behind it.
+	Stall int `json:"stall"`
 }
 
 func init() {
@@ -52,7 +58,7 @@ func c02Valid(body []byte) bool {
 }
 
 func c02Run(ctx *core.Ctx) {
-	ctx.Rule = "message bodies assembled from bait command lines and end-of-data look-alikes (LF.LF, LF.CRLF, CRLF.LF, CR.CR, CRLF.CR, CRLF..CRLF, ...), followed by the true CRLF.CRLF and the pipelined commands MAIL(marker)/RSET/NOOP; x backend {read all, read 0/1/half} x {accept, reject} x MaxMessageBytes {none, below, at, above the unstuffed size} x {SMTP, LMTP, LMTP per-recipient} x segmentation {one segment, per line, seeded cuts}. Non-trivial: the body contains a look-alike followed by a bait line; distinct by full case."
+	ctx.Rule = "message bodies assembled from bait command lines and end-of-data look-alikes (LF.LF, LF.CRLF, CRLF.LF, CR.CR, CRLF.CR, CRLF..CRLF, ...), followed by the true CRLF.CRLF and the pipelined commands MAIL(marker)/RSET/NOOP; x backend {read all, read 0/1/half} x {accept, reject} x MaxMessageBytes {none, below, at, above the unstuffed size} x {SMTP, LMTP, LMTP per-recipient} x segmentation {one segment, per line, seeded cuts}; plus the same transfers overtaken by the read timeout (ReadTimeout set, virtual deadline fired right before the first bait line) with the peer carrying on afterwards. Non-trivial: the body contains a look-alike followed by a bait line; distinct by full case."
 	ctx.Assumptions = []string{"whether the message is accepted (250/552/554) is not judged here (C06)", "reference end-of-data = first CRLF.CRLF per ref.Unstuff"}
 	var bodies [][]byte
 	for _, la := range c02Lookalikes {
@@ -118,6 +124,19 @@ func c02Run(ctx *core.Ctx) {
 									}
 								}
 								emit(c)
+								if rd == -1 && lim == 0 && sg != "cuts" {
+									// the same transfer overtaken by the read timeout right before its first
+									// bait line (or in the middle of the body)
+									c.Stall = len(body) / 2
+									for _, b := range c02Baits {
+										if i := bytes.Index(body, []byte(b)); i > 0 && i < c.Stall {
+											c.Stall = i
+										}
+									}
+									if c.Stall > 0 {
+										emit(c)
+									}
+								}
 							}
 						}
 					}
@@ -140,12 +159,19 @@ func c02Exec(ctx *core.Ctx, c c02Case) {
 			nontrivial = true
 		}
 	}
-	ctx.Eval(fmt.Sprintf("%q|%d|%v|%d|%s|%s|%v", c.Body, c.Read, c.Reject, c.Limit, c.Mode, c.Seg, c.Cuts), nontrivial)
+	ctx.Eval(fmt.Sprintf("%q|%d|%v|%d|%s|%s|%v|%d", c.Body, c.Read, c.Reject, c.Limit, c.Mode, c.Seg, c.Cuts, c.Stall), nontrivial)
 
-	rig := newRig(c.Mode, func(s *smtp.Server) { s.MaxMessageBytes = c.Limit })
+	rig := newRig(c.Mode, func(s *smtp.Server) {
+		s.MaxMessageBytes = c.Limit
+		if c.Stall > 0 {
+			s.ReadTimeout = time.Hour // virtual clock: expires only when the harness fires it
+		}
+	})
 	rig.BE.H.Data = func(sess int, r *rec.Reader, st smtp.StatusCollector) error {
 		if c.Read < 0 {
-			r.ReadAll(512)
+			if err := r.ReadAll(512); c.Stall > 0 && err != nil && err.Error() != "EOF" {
+				return err // the backend contract: a failed read is reported back
+			}
 		} else {
 			r.ReadN(c.Read, 7)
 		}
@@ -175,6 +201,22 @@ func c02Exec(ctx *core.Ctx, c c02Case) {
 		return
 	}
 	full := append(append([]byte{}, stream...), c02Tail...)
+	fired := false
+	if c.Stall > 0 && c.Stall < len(c.Body) {
+		p.Send(full[:c.Stall])
+		full = full[c.Stall:]
+		if idle, werr := p.Raw.WaitPeerIdle(wire.Watchdog); werr != nil || !idle {
+			p.Close()
+			rig.Finish()
+			ctx.Inconclusive("C02 stall: the server did not go idle inside the message")
+			return
+		}
+		fired = p.SrvEnd.FireReadDeadline()
+		if fired {
+			rig.Log.Act("read deadline fired inside the message")
+			ctx.Add("read_deadlines_fired_inside_a_message", 1)
+		}
+	}
 	switch c.Seg {
 	case "one":
 		p.Send(full)
@@ -243,6 +285,23 @@ func c02Exec(ctx *core.Ctx, c c02Case) {
 	}
 	if d.B == "EOF" && d.A != string(want) {
 		fail("C02:early-eof", fmt.Sprintf("reader reported EOF after %d of %d message octets", len(d.A), len(want)))
+		return
+	}
+	if fired {
+		// The transfer was overtaken by the read timeout. Whether the server gives the connection
+		// up or skips to the end marker is its choice; in neither case may message text have run as
+		// commands (checked above), and if commands are executed again the first one is the marker.
+		if firstMailAfter != "" && firstMailAfter != "marker-1@x.test" {
+			fail("C02:resync-after-timeout", fmt.Sprintf("after a read timeout inside the message the first MAIL executed was %q", firstMailAfter))
+			return
+		}
+		if d.B == "EOF" {
+			fail("C02:early-eof", "the reader reported EOF for a transfer that was cut by the read timeout")
+			return
+		}
+		if ctx.WantSample("stall/" + string(c.Mode)) {
+			ctx.Sample("stall/"+string(c.Mode), map[string]any{"body": fmt.Sprintf("%q", c.Body), "stall_at": c.Stall, "backend_read": len(d.A), "term": d.B, "replies_after_354": codes(tail)})
+		}
 		return
 	}
 	// (3) replies: finals, then exactly MAIL/RSET/NOOP/QUIT
